@@ -1,7 +1,7 @@
 (* C01 - charge is conserved in every cell at every recorded step. *)
 From Coq Require Import Reals List Arith.
 From PyTdgl Require Import Base.Ops Base.Cplx Base.Sums Model.FV Model.Euler Model.Step
-     Proofs.EulerR Proofs.FVR Proofs.FVC Proofs.StepP.
+     Proofs.EulerR Proofs.FVR Proofs.FVC Proofs.StepP Proofs.BalanceR.
 Import ListNotations.
 Open Scope R_scope.
 
@@ -70,3 +70,24 @@ Theorem C01_run_continuity :
         = applyR (bflux_coo OpsR a 0 es) (si_muB _ i) r.
 Proof. exact run_continuity. Qed.
 Print Assumptions C01_run_continuity.
+
+(* "every balanced assignment is accepted", in the (1+delta) rounding model: currents that sum to zero exactly in the user's
+   units pass the balance test after conversion (one rounding each, |delta| <= u) and floating-point summation (accumulated
+   relative error <= g per term; the allowance 1e-9 * sum|v| computed with relative error <= g'), for any number of terminals *)
+Theorem C01_balanced_accepted_rounded :
+  forall (s u g g' : R) (l : list term),
+    0 <= u < 1 -> 0 <= g' < 1 ->
+    (forall t, In t l -> Rabs (td t) <= u /\ Rabs (tth t) <= g) ->
+    Rsum tI l = 0 ->
+    u / (1 - u) + g <= 1e-9 * (1 - g') ->
+    forall eta, Rabs eta <= g' ->
+    Rabs (Rsum (fun t => val s t * (1 + tth t)) l) <= 1e-9 * (Rsum (fun t => Rabs (val s t)) l * (1 + eta)).
+Proof. exact balanced_accepted_rounded. Qed.
+Print Assumptions C01_balanced_accepted_rounded.
+
+(* the room hypothesis holds for binary64 and up to a thousand terminals *)
+Theorem C01_balance_room_binary64 :
+  let u := / 2 ^ 53 in let g := 12 / 10 ^ 14 in
+  0 <= u < 1 /\ 0 <= g /\ 0 <= g < 1 /\ u / (1 - u) + g <= 1e-9 * (1 - g).
+Proof. exact room_binary64. Qed.
+Print Assumptions C01_balance_room_binary64.
